@@ -74,3 +74,82 @@ package keymap
 //@   assigns m.local, m.pending
 //@   ensures old(len(m.pending)) > 0 ==> m.pending == old(m.pending)[:old(len(m.pending)) - 1]
 //@   ensures old(len(m.pending)) == 0 ==> m.pending == old(m.pending)
+
+// ---------------------------------------------------------------------------------------
+// C03: key sequences run exactly the command they are bound to
+
+// conv(s): the byte sequence a bind table key stands for (meta runes become ESC + rune)
+//@ spec conv(s string) string = strutil.convr(runes(s))
+//@ spec ppre(ks []byte, t string) bool = len(ks) < len(t) && t[:len(ks)] == ks
+//@ spec bexact(binds map[string]inputrc.Bind, ks []byte) bool = anykey(s, binds, conv(s) == ks)
+//@ spec bprefix(binds map[string]inputrc.Bind, ks []byte) bool = anykey(s, binds, ppre(ks, conv(s)))
+
+//@ func (*Engine).matchBind
+//@   props C03 C02 C01
+//@   terminates
+//@   requires m != nil
+//@   pure
+//@   ensures [exact-sound] bexact(binds, keys) ==> anykey(s, binds, conv(s) == keys && result0 == binds[s])
+//@   ensures [exact-none] !bexact(binds, keys) ==> len(result0.Action) == 0 && !result0.Macro
+//@   ensures [prefixed-iff] len(result1) > 0 <==> bprefix(binds, keys)
+//@   ensures [prefixed-sound] all(i, 0, len(result1), anykey(s, binds, ppre(keys, conv(s)) && result1[i] == binds[s]))
+//@   loop 1 invariant 0 <= itpos && itpos <= len(itkeys) && sequences == itkeys[:itpos]
+//@   loop 2 invariant rangeindex < len(sequences) && all(j, 0, len(sequences), has(binds, sequences[j])) && allkeys(s, binds, any(j, 0, len(sequences), sequences[j] == s))
+//@   loop 2 invariant (any(j, 0, rangeindex + 1, conv(sequences[j]) == keys) ==> any(j, 0, rangeindex + 1, conv(sequences[j]) == keys && match == binds[sequences[j]])) && (!any(j, 0, rangeindex + 1, conv(sequences[j]) == keys) ==> len(match.Action) == 0 && !match.Macro)
+//@   loop 2 invariant (len(prefixed) > 0 <==> any(j, 0, rangeindex + 1, ppre(keys, conv(sequences[j])))) && all(i, 0, len(prefixed), any(j, 0, rangeindex + 1, ppre(keys, conv(sequences[j])) && prefixed[i] == binds[sequences[j]]))
+
+//@ func (*Engine).dispatchKeys
+//@   props C03 C02 C05 C01
+//@   terminates
+//@   requires m != nil && m.keys != nil
+//@   assigns m.active, m.prefixed, m.keys.buf, m.keys.macroKeys
+//@   let u = m.keys.buf
+//@   let typed = len(m.keys.macroKeys) == 0
+//@   ensures [consumed-in-order] typed ==> len(result2) <= len(u) && result2 == u[:len(result2)] && m.keys.buf == u[len(result2):]
+//@   ensures [matched-is-read] result3 == result2[:len(result3)] && (len(result3) == len(result2) || len(result3) + 1 == len(result2))
+//@   ensures [prefix-waits] typed && result1 ==> len(m.keys.buf) == 0 && len(result3) == len(result2) && len(result2) > 0 && bprefix(binds, result2)
+//@   ensures [exact-runs-its-bind] typed && !result1 && len(result2) > 0 && len(result3) == len(result2) ==> !bprefix(binds, result2) && anykey(s, binds, conv(s) == result2 && result0 == binds[s])
+//@   ensures [rejected-key] typed && !result1 && len(result3) < len(result2) ==> !bprefix(binds, result2) && (len(result0.Action) == 0 || result0 == old(m.prefixed) || any(j, 1, len(result2), anykey(s, binds, conv(s) == result2[:j] && result0 == binds[s])))
+//@   ensures [returns-active] result0 == m.active
+//@   ensures [no-keys-no-command] len(u) == 0 && typed ==> len(result0.Action) == 0
+//@   loop 1 invariant m != nil && m.keys != nil && matched == read && (typed ==> len(m.keys.macroKeys) == 0 && len(read) <= len(u) && read == u[:len(read)] && m.keys.buf == u[len(read):])
+//@   loop 1 invariant typed ==> (len(read) == 0 && !prefix && m.prefixed == old(m.prefixed)) || (len(read) > 0 && prefix && bprefix(binds, read) && (m.prefixed == old(m.prefixed) || any(j, 1, len(read) + 1, anykey(s, binds, conv(s) == read[:j] && m.prefixed == binds[s]))))
+//@   loop 1 invariant m.active == old(m.active)
+//@   loop 1 decreases len(m.keys.buf) + len(m.keys.macroKeys)
+
+//@ func (*Engine).IsEmacs
+//@   props C03 C02 C01
+//@   terminates
+//@   requires m != nil
+//@   pure
+//@   ensures result <==> (m.main == "emacs" || m.main == "emacs-standard" || m.main == "emacs-meta" || m.main == "emacs-ctlx")
+
+//@ func (*Engine).isEscapeKey
+//@   props C03 C02 C01
+//@   terminates
+//@   requires m != nil && m.keys != nil
+//@   pure
+//@   ensures result <==> (len(m.keys.matched) == 1 && m.keys.matched[0] == 27)
+
+//@ func (*Engine).getContextBinds
+//@   props C03 C02 C01
+//@   assume_nopanic isearch / non-incremental-search restriction tables are outside the C03 kernel
+//@   requires m != nil && m.config != nil && m.config.Binds != nil
+//@   ensures [plain-table] main && m.local != "isearch" && !m.nonIncSearch ==> result == mget(m.config.Binds, m.main)
+//@   ensures [plain-table] !main ==> result == mget(m.config.Binds, m.local)
+
+// kmdisp: the dispatcher state MatchMain / MatchLocal start from in the kernel statement: typed keys only
+// (no macro keys pending), no binding kept from an earlier prefix, plain (unrestricted) bind tables
+//@ pred kmdisp(eng *Engine) = eng != nil && eng.keys != nil && eng.config != nil && eng.config.Binds != nil && eng.commands != nil && len(eng.keys.macroKeys) == 0 && len(eng.prefixed.Action) == 0 && !eng.prefixed.Macro && eng.local != "isearch" && !eng.nonIncSearch
+//@ spec maintbl(eng *Engine) map[string]inputrc.Bind = mget(eng.config.Binds, eng.main)
+
+//@ func MatchMain
+//@   props C03 C02 C05
+//@   terminates
+//@   requires kmdisp(eng) && (eng.main == "emacs" || eng.main == "emacs-standard" || eng.main == "emacs-meta" || eng.main == "emacs-ctlx")
+//@   let u = eng.keys.buf
+//@   ensures [prefix-keeps-keys] result2 ==> eng.keys.buf == u && len(u) > 0 && bprefix(maintbl(eng), u)
+//@   ensures [stack-shrinks] len(eng.keys.buf) <= len(u) && eng.keys.buf == u[len(u) - len(eng.keys.buf):]
+//@   ensures [runs-bound-sequence] !result2 && len(result0.Action) > 0 ==> anykey(s, maintbl(eng), conv(s) == u[:len(u) - len(eng.keys.buf)] && result0 == mget(maintbl(eng), s))
+//@   ensures [no-keys-no-command] len(u) == 0 ==> len(result0.Action) == 0 && !result2
+//@   ensures [caller-keys] !result2 && len(result0.Action) > 0 ==> eng.keys.matched == runes(u[:len(u) - len(eng.keys.buf)])
